@@ -51,7 +51,7 @@ def run(ck, ctx):
         variants = {m.qualname for f in fs for m in f.models}
         tested = set()
         for n in g.nodes:
-            if n.op == "IsInstance" and n.fn is not None and n.fn.qualname == "CloudTopHeight.__init__":
+            if n.op == "IsInstance" and n.fn is not None and n.fn.module.name.endswith("clouds"):
                 if n.args[0].op == "Cfg" and n.args[0].attr == ("simulation", "cloud_model") and n.args[1].op == "Class":
                     tested.add(n.args[1].attr.qualname)
         for v in sorted(variants):
